@@ -522,6 +522,7 @@ func TestVerif_C13_sighuppipe(t *testing.T) {
 	}
 
 	s := c13hStart(t)
+	rec.Class(s.startMode)
 	// take over: all files fine, ClientConf generation 1, the environment points to the pipe
 	d := &c13pDrv{s: s, fifo: filepath.Join(s.dir, "phantom_subnets.pipe"), genOf: map[int64]uint32{}, genMin: map[int64]uint32{}, genDisk: s.curGen.Load(), curMin: s.curGen.Load(), base: s.curGen.Load(), classes: map[string]bool{}}
 	_ = os.Remove(d.fifo)
